@@ -700,6 +700,18 @@ def mok(env, name, obj, *args):
 
 
 @ghost()
+def is_closure(env, x, name):
+    """x is the closure of that name defined by the unit (not some pre-existing function object)"""
+    return isinstance(x, V) and x.kind == "fn" and getattr(x.d.node, "name", None) == name
+
+
+@ghost()
+def raised_by_method(env, e):
+    """the exception came out of a symbolic method call (e.g. the mediator declined)"""
+    return isinstance(e, V) and e.ty is None
+
+
+@ghost()
 def reiterable(env, x):
     """a container that can be iterated any number of times (list / tuple / set / dict), not a one-shot producer"""
     if isinstance(x, V):
@@ -1059,6 +1071,12 @@ def py(env, argnodes):
     fn = compile_native(lam, env.interp.globals, consts)
     vs = [a if isinstance(a, V) else const(a) for a in args]
     interp = env.interp
+    from .builtins_theory import frozen_const
+    for n_, v_ in enumerate(vs):
+        if v_.kind in ("ref", "tuple") and v_.shadow is None:
+            fz = frozen_const(interp, env.st, v_)
+            if fz is not None:
+                vs[n_] = const(fz)
     root = interp.common_root(vs)
     if root is False:
         raise SpecError("py(...) needs arguments shadowed on one datum")
